@@ -24,7 +24,11 @@
   Element size `sz` (`vtable.size()`) is a parameter of a run: 0 for
   zero-sized element types (capacity `usize::MAX`, nothing allocated).
   Element values are natural numbers (the harness maps u8 / u64 / String /
-  tracked values injectively); `==` on elements is `=` on them.
+  tracked values injectively); `==` on elements is `elemEq` (ListBase): `=` on
+  plain values, IEEE-754 `==` on the values that stand for `f64` bit patterns
+  (`0.0 == -0.0`, NaN equal to nothing) — every element comparison of the
+  model (`contains`, `index`, both `==`) and of the specification goes through
+  it, as the Rust text goes through `vtable.eq_fn` / `T: PartialEq`.
 
   Core Lean only (linked into the driver).
 -/
@@ -111,9 +115,10 @@ def containsLoop (l : RawList) (v : Nat) : Nat → Nat → E Bool
     match rawGet l i with
     | .error f => .error f
     | .ok none => .error .panic
-    | .ok (some e) => if e = v then .ok true else containsLoop l v (i + 1) n
+    | .ok (some e) => if elemEq e v then .ok true else containsLoop l v (i + 1) n
 
-def rawContains (l : RawList) (v : Nat) : E Bool := containsLoop l v 0 l.len
+def rawContains (l : RawList) (v : Nat) : E Bool :=
+  containsLoop l v 0 (Gen.ListGuards.contains_loop_count l.view)
 
 /-- the loop of `RawList::index` -/
 def indexLoop (l : RawList) (v : Nat) : Nat → Nat → E (Option Nat)
@@ -122,9 +127,10 @@ def indexLoop (l : RawList) (v : Nat) : Nat → Nat → E (Option Nat)
     match rawGet l i with
     | .error f => .error f
     | .ok none => .error .panic
-    | .ok (some e) => if e = v then .ok (some i) else indexLoop l v (i + 1) n
+    | .ok (some e) => if elemEq e v then .ok (some i) else indexLoop l v (i + 1) n
 
-def rawIndex (l : RawList) (v : Nat) : E (Option Nat) := indexLoop l v 0 l.len
+def rawIndex (l : RawList) (v : Nat) : E (Option Nat) :=
+  indexLoop l v 0 (Gen.ListGuards.index_loop_count l.view)
 
 def swapElems (xs : List Nat) (i j : Nat) : List Nat :=
   match xs[i]?, xs[j]? with
@@ -166,19 +172,20 @@ def eqLoop (a b : RawList) : Nat → Nat → E Bool
     match rawGet a i, rawGet b i with
     | .error f, _ => .error f
     | _, .error f => .error f
-    | .ok (some x), .ok (some y) => if x = y then eqLoop a b (i + 1) n else .ok false
+    | .ok (some x), .ok (some y) => if elemEq x y then eqLoop a b (i + 1) n else .ok false
     | _, _ => .error .panic
 
 /-- `ErasedList::eq` under both locks -/
 def rawEqErased (a b : RawList) : E Bool :=
-  if Gen.ListGuards.eq_len_differs a.view b.view then .ok false else eqLoop a b 0 a.len
+  if Gen.ListGuards.eq_len_differs a.view b.view then .ok false
+  else eqLoop a b 0 (Gen.ListGuards.eq_loop_count a.view b.view)
 
 /-- `List<T>::eq` under both locks: slice equality -/
 def rawEqTyped (a b : RawList) : E Bool :=
   match readAll a, readAll b with
   | .error f, _ => .error f
   | _, .error f => .error f
-  | .ok xs, .ok ys => .ok (decide (xs = ys))
+  | .ok xs, .ok ys => .ok (listEq xs ys)
 
 /-- the loop of `IntoIter::next` / the script `for`: `get(0), get(1), …` until `None` -/
 def iterLoop (l : RawList) : Nat → Nat → E (List Nat)
@@ -610,14 +617,14 @@ def specStep (t : Spec) : Op → Out × Spec
   | .contains h v =>
     match t.vec h with
     | none => (.fault .badHandle, t)
-    | some (_, xs) => (.bool (xs.contains v), t)
+    | some (_, xs) => (.bool (anyEq v xs), t)
   | .index h v =>
     match t.vec h with
     | none => (.fault .badHandle, t)
-    | some (_, xs) => (.opt (if xs.contains v then some (xs.idxOf v) else none), t)
+    | some (_, xs) => (.opt (firstIdx v xs 0), t)
   | .eq a b _ =>
     match t.vec a, t.vec b with
-    | some (_, xs), some (_, ys) => (.bool (decide (xs = ys)), t)
+    | some (_, xs), some (_, ys) => (.bool (listEq xs ys), t)
     | _, _ => (.fault .badHandle, t)
   | .toVec h =>
     match t.vec h with
